@@ -54,6 +54,18 @@ def run(run, binfo):
         cases.append(base_case(rules=rules, rule=('name', q), creds=creds, target=target, do_raise=dr,
                                exc=(7 if rng.random() < 0.3 else None),
                                default=rng.choice([('none',), ('name', 'lower')])))
+    # registered defaults with scope types whose check string carries placeholders: a scope mismatch
+    # must surface as InvalidScope (or False), never as a formatting error
+    for cs in ['role:%(wanted)s', 'project_id:%(project_id)s and role:%(k)s', "'x':%(y.z)s", 'role:admin', '%(odd)s:x']:
+        for dr in (False, True):
+            for es in (False, True):
+                for creds in ({'roles': ['admin'], 'project_id': 'p'}, {'roles': [], 'system_scope': 'all'},
+                              {'roles': ['admin'], 'domain_id': 'd'}):
+                    for types in (['system'], ['project'], ['domain', 'system']):
+                        cases.append(base_case(rules={'pol': cs}, rule=('name', 'pol'), creds=creds,
+                                               target={'wanted': 'admin', 'project_id': 'p', 'k': 'admin'},
+                                               registered={'pol': types}, registered_check={'pol': cs},
+                                               enforce_scope=es, do_raise=dr, exc=None))
     run.count('cases', len(cases))
     bad_corr = []
     kinds = {}
